@@ -1,8 +1,9 @@
 CONSTANTS
   Keys = {1, 2}
   MaxOps = 5
+  Layouts = {"a"}
 INIT MCInit
 NEXT Next
-INVARIANTS TypeOK Rooted Interchangeable VerifyIffSameKey Witness
+INVARIANTS TypeOK Rooted Interchangeable LayoutIrrelevant VerifyIffSameKey Witness
 POSTCONDITION NonVacuous
 CHECK_DEADLOCK FALSE
